@@ -369,7 +369,7 @@ func (rs reqSpec) httpRequest(extraSlash bool) (*http.Request, error) {
 	if extraSlash {
 		path += "/"
 	}
-	hdr := [][2]string{{"Content-Type", rs.CT}, {"Accept", rs.Acc}, {"X-Cond", condHeader(rs.Conds)}}
+	hdr := [][2]string{{"Content-Type", rs.CT}, {"Accept", rs.Acc}, {"X-Cond", condHeader(rs.Conds)}, {"X-Cond-Panic", condHeader(rs.CPanic)}}
 	for k, v := range rs.Hdr {
 		hdr = append(hdr, [2]string{k, v})
 	}
@@ -560,7 +560,7 @@ func runRoute(planPath, outPath string, seed int64) {
 			pd.outs[ix].Vs = append(pd.outs[ix].Vs, variant)
 		}
 		for _, rq := range t.Reqs {
-			rq.Conds = nonNilI(rq.Conds)
+			rq.Conds, rq.CPanic = nonNilI(rq.Conds), nonNilI(rq.CPanic)
 			rk, _ := json.Marshal(rq)
 			if seenReq[string(rk)] {
 				continue
